@@ -2908,6 +2908,9 @@ func (dsc *dataStoreCommand) setRemove(keyName string, members []string) (output
 			removals++
 		}
 	}
+	if m.count == 0 {
+		dsc.ds.data.remove(keyName)
+	}
 
 	output.data = respInt(removals)
 	return
